@@ -1,5 +1,6 @@
 """C18 — runtime table changes are atomic with respect to traffic."""
 import copy, json, os, re, random
+from concurrent.futures import ThreadPoolExecutor
 from vlib.core import Machinery
 
 LEVEL = "model_checking"
@@ -82,18 +83,18 @@ def model_check(ctx):
                                             "delete-last, add; not with 2 complete ops)"]
 
 
-def gen_schedules(ctx, kind, **kw):
+def gen_schedules(ctx, kind, tag, **kw):
     c = dict(InitN=3, MaxOps=2, NDisp=1, Classes={1}, AddFilters={0}, UpdFilters={1}, OpKinds={"add", "delidx"},
              StepWise=True, KeyMod=1000, DelTail=False,
              FeGate=False, RouteGates=True, FeKinds=set(), FeFilters=set(), FeBl=0, FeRw=0, FeAgg=0, FeWindow=False, Mixed=False)
     c.update(kw)
-    r = ctx.tlc("TableSched", "TableSched.cfg", consts=c, workers=1, timeout=1200,
-                tag="sched_%s_%d" % (kind, len(ctx.cov["tlc_runs"])))
+    r = ctx.tlc("TableSched", "TableSched.cfg", consts=c, workers=1, timeout=1200, tag=tag)
     out = []
     for s in ctx.tlc_printed(r, "@@S"):
         out.append(dict(kind=kind, init=c["InitN"], steps=json.loads(s)))
         if kind == "fe":
-            out[-1].update(febl=c["FeBl"], ferw=c["FeRw"], feagg=c["FeAgg"], rgate=c["RouteGates"])
+            # win: every operation of the schedule happens while the dispatcher is held at the front-end gate
+            out[-1].update(febl=c["FeBl"], ferw=c["FeRw"], feagg=c["FeAgg"], rgate=c["RouteGates"], win=c["FeWindow"])
     if kind == "fe" and not out:
         raise Machinery("no whole-table schedules generated")
     return out
@@ -101,38 +102,53 @@ def gen_schedules(ctx, kind, **kw):
 
 def schedules(ctx):
     q = ctx.quick()
-    S = []
-    # table level, capture routes as gates: every interleaving of one held dispatcher with 2 operations
-    S += gen_schedules(ctx, "route", OpKinds={"add", "delkey"}, AddFilters={0, 1}, Classes={1})
-    S += gen_schedules(ctx, "route", OpKinds={"delkey"}, NDisp=2, MaxOps=1, InitN=ctx.pick(2, 3))
-    # inside a real sendAllMatch route (destinations), log-hook gate
-    S += gen_schedules(ctx, "dest", OpKinds={"add", "delidx"})
-    S += gen_schedules(ctx, "dest", OpKinds={"updidx", "delidx"}, Classes={1, 2}, UpdFilters={1}, MaxOps=ctx.pick(1, 2))
-    # 3 operations around the end of the list: every interleaving of one held dispatcher with add / delete-LAST histories
-    # (delete-last, delete-last, add while the dispatcher still holds the first, longest snapshot: see TableMem.TruncateTail)
-    S += gen_schedules(ctx, "route", OpKinds={"add", "delkey"}, MaxOps=3, DelTail=True)
-    S += gen_schedules(ctx, "dest", OpKinds={"add", "delidx"}, MaxOps=3, DelTail=True)
-    # table level, real routes (one destination each), commands addRoute/delRoute/modRoute
-    S += gen_schedules(ctx, "rroute", OpKinds={"add", "delkey", "updkey"}, InitN=2, Classes={1, 2}, UpdFilters={1},
-                       AddFilters={0, 2}, MaxOps=ctx.pick(1, 2))
-    S += gen_schedules(ctx, "rroute", OpKinds={"delkey"}, InitN=3, MaxOps=ctx.pick(1, 2))
+    G = []
+
+    def gen(kind, **kw):
+        G.append((kind, kw))
+
     # the WHOLE table: a dispatcher held in the front end (after the configuration load, inside the first aggregator) while a
     # front-end list AND the route list change, both orders; then released (blacklisted? consumed? name, routes visited)
     fe = dict(OpKinds={"add", "delkey"}, FeGate=True, FeKinds=FE_ALL, FeFilters={1}, FeBl=1, FeRw=1, FeAgg=1, InitN=2, Mixed=True)
-    S += gen_schedules(ctx, "fe", **dict(fe, Classes={1, 2}, FeWindow=True, RouteGates=False))
+    gen("fe", **dict(fe, Classes={1, 2}, FeWindow=True, RouteGates=False))
     # ... and held again at every route: two changes anywhere between the load and the last route
-    S += gen_schedules(ctx, "fe", **dict(fe, InitN=ctx.pick(1, 2)))
-    # lists without a gate point inside their loop: whole dispatches between operations + white box
-    plain = gen_schedules(ctx, "rw", OpKinds={"add", "delidx"}, StepWise=False, MaxOps=ctx.pick(2, 3))
-    for k in ("rw", "bl", "agg"):
-        S += [dict(x, kind=k) for x in copy.deepcopy(plain)]
+    gen("fe", **dict(fe, InitN=ctx.pick(1, 2)))
     if not q:
-        S += gen_schedules(ctx, "fe", **dict(fe, MaxOps=3, InitN=1, FeWindow=True, Mixed=False))
-        S += gen_schedules(ctx, "route", OpKinds={"add", "delkey"}, MaxOps=3)
-        S += gen_schedules(ctx, "dest", OpKinds={"add", "delidx"}, NDisp=2, MaxOps=1)
-        S += gen_schedules(ctx, "dest", OpKinds={"delidx"}, InitN=4, MaxOps=2)
-        S += gen_schedules(ctx, "rroute", OpKinds={"add", "delkey"}, InitN=3, MaxOps=3, DelTail=True)
-        S += gen_schedules(ctx, "route", OpKinds={"add", "delkey"}, InitN=4, MaxOps=4, DelTail=True)
+        gen("fe", **dict(fe, MaxOps=3, InitN=1, FeWindow=True, Mixed=False))
+    # table level, capture routes as gates: every interleaving of one held dispatcher with 2 operations
+    gen("route", OpKinds={"add", "delkey"}, AddFilters={0, 1}, Classes={1})
+    gen("route", OpKinds={"delkey"}, NDisp=2, MaxOps=1, InitN=ctx.pick(2, 3))
+    # inside a real sendAllMatch route (destinations), log-hook gate
+    gen("dest", OpKinds={"add", "delidx"})
+    gen("dest", OpKinds={"updidx", "delidx"}, Classes={1, 2}, UpdFilters={1}, MaxOps=ctx.pick(1, 2))
+    # 3 operations around the end of the list: every interleaving of one held dispatcher with add / delete-LAST histories
+    # (delete-last, delete-last, add while the dispatcher still holds the first, longest snapshot: see TableMem.TruncateTail)
+    gen("route", OpKinds={"add", "delkey"}, MaxOps=3, DelTail=True)
+    gen("dest", OpKinds={"add", "delidx"}, MaxOps=3, DelTail=True)
+    # table level, real routes (one destination each), commands addRoute/delRoute/modRoute
+    gen("rroute", OpKinds={"add", "delkey", "updkey"}, InitN=2, Classes={1, 2}, UpdFilters={1},
+        AddFilters={0, 2}, MaxOps=ctx.pick(1, 2))
+    gen("rroute", OpKinds={"delkey"}, InitN=3, MaxOps=ctx.pick(1, 2))
+    # lists without a gate point inside their loop: whole dispatches between operations + white box
+    gen("rw", OpKinds={"add", "delidx"}, StepWise=False, MaxOps=ctx.pick(2, 3))
+    if not q:
+        gen("route", OpKinds={"add", "delkey"}, MaxOps=3)
+        gen("dest", OpKinds={"add", "delidx"}, NDisp=2, MaxOps=1)
+        gen("dest", OpKinds={"delidx"}, InitN=4, MaxOps=2)
+        gen("rroute", OpKinds={"add", "delkey"}, InitN=3, MaxOps=3, DelTail=True)
+        gen("route", OpKinds={"add", "delkey"}, InitN=4, MaxOps=4, DelTail=True)
+    # independent generator runs, one TLC worker each, 4 at a time
+    ctx.specdir()
+    with ThreadPoolExecutor(max_workers=4) as ex:
+        futs = [ex.submit(gen_schedules, ctx, kind, "sched_%s_%d" % (kind, n), **kw) for n, (kind, kw) in enumerate(G)]
+        res = [f.result() for f in futs]
+    S = []
+    for (kind, kw), r in zip(G, res):
+        if kind == "rw":
+            for k in ("rw", "bl", "agg"):
+                S += [dict(x, kind=k) for x in copy.deepcopy(r)]
+        else:
+            S += r
     for i, s in enumerate(S):
         s["h"] = i
     return S
@@ -257,6 +273,13 @@ def run(ctx):
     blocks = split(events)
     if len(blocks) != len(S) and not ctx.violations:
         raise Machinery("replay: %d histories recorded for %d schedules" % (len(blocks), len(S)))
+
+    # the front-end gate held: in a "win" schedule both operations were performed while the dispatch was in flight
+    if len(blocks) == len(S):
+        loose = [s["h"] for s, b in zip(S, blocks) if s.get("win") and any(e["ev"] == "start" for e in b) and whole_table_cov([b]) == 0]
+        if loose:
+            raise Machinery("kind fe: the dispatcher was not held at the front-end gate (aggregator mock clock) in %d histories, "
+                            "e.g. h=%d: the gate point is gone from Table.Dispatch / aggregator.AddMaybe?" % (len(loose), loose[0]))
 
     def on_bad(b, i, clause):
         ev = b[i]
